@@ -13,6 +13,29 @@ def simple(mon, config="asan", **kw):
 
 
 PROPS = {
+    "C01": {
+        "sources": KIT + ["mon_C01.c"],
+        "phases": [{"name": "main", "config": "plain"}, {"name": "closure", "config": "asan"}],
+        "level": "exploration",
+        "level_text": "Differential execution of the real isValidCell against a predicate written from the documented bit layout: exhaustive over all 2^19 "
+                      "settings of the top 19 bits (x ~200 digit strings each) and over every 8^5 assignment of every window of five neighbouring digit "
+                      "positions for every resolution and base-cell class, plus bit-flipped valid cells and uniform values (1e9 quick / 1e10 thorough "
+                      "evaluations). This is not the symbolic all-2^64 decision the quantifier asks for: a fault that needs four or more specific "
+                      "non-adjacent digit positions under one base cell can escape. Closure clause: every cell any API returns in this and all other "
+                      "monitors passes through the same reference predicate.",
+        "level_note": "Trusted base: the 40-line reference predicate transcribed from website/docs/library/index/cell.md and the list of twelve pentagon base cells "
+                      "(cross-checked against getPentagons in C03).",
+        "technique": "runtime monitoring: differential execution against a documentation-derived reference predicate over a structured exhaustive enumeration, outputs of all APIs monitored for validity under ASan/UBSan",
+        "evaluations": ["evaluations"],
+        "rule": "cases are 64-bit values; strata: (a) all 2^19 top-19-bit settings x ~200 digit strings, (b) all 8^5 assignments of each 5-digit window per "
+                "resolution x base cell class x 6 fills, (c) valid cells with 1-3 flipped bits, (d) uniform/hostile values. Non-trivial = reference-valid, or "
+                "invalid for exactly one clause of the layout (single fault); distinct by value. Window stratum is sampled 1/64 into the distinct set; the "
+                "set saturates at 2M values per worker (distinct_saturated) so the count is a lower bound.",
+        "require": {"evaluations": {"quick": 500000000, "thorough": 4000000000}, "ref_valid": 1000000, "single_fault_invalid": 1000000,
+                    "closure.cells": 100, "outcells.gridDisk": 100, "outcells.polygonToCellsExperimental": 100},
+        "exhaustive_note": "exhaustive in the top 19 bits and in every 5-digit window; not exhaustive over 2^64",
+        "assumptions": ["reference predicate equals the documented layout", "faults needing >=4 specific non-adjacent digit positions under one base cell are not excluded"],
+    },
     "C20": {
         "sources": KIT + ["mon_C20.c"],
         "phases": simple("mon_C20.c"),
